@@ -72,8 +72,9 @@ def with_stages(case, ks, rng=None, thr_some=False):
     return c
 
 
-def final_tables(kind, axis, X, y, init, extra, ks):
-    """distance tables / pi_ after a chain, straight from the implementation."""
+def final_tables(kind, axis, X, y, init, extra, ks, thr=None):
+    """distance tables / pi_ after a chain, straight from the implementation.
+    thr = (type, value): the same score threshold is set at every stage."""
     Xa = np.array(X, float)
     Ya = None if y is None else np.array(y, float)
     kw = dict(extra)
@@ -81,6 +82,8 @@ def final_tables(kind, axis, X, y, init, extra, ks):
         kw["initialize"] = init
     sel = S.make_selector(kind, axis, **kw)
     rec = c01.Recorder(sel)
+    if thr is not None:
+        sel.score_threshold_type, sel.score_threshold = thr
     for si, k in enumerate(ks):
         sel.n_to_select = k
         if Ya is None:
@@ -105,7 +108,10 @@ def tables_equal(kind, a, b):
     if a["sel"] != b["sel"]:
         # "differences are allowed only from the first step at which two candidates are tied
         # within rounding": look at the scores the cold fit saw at the first differing step
-        t = next(i for i, (x, y) in enumerate(zip(a["sel"], b["sel"])) if x != y)
+        t = next((i for i, (x, y) in enumerate(zip(a["sel"], b["sel"])) if x != y), None)
+        if t is None:
+            return "chain selected %d items %s, cold fit %d items %s (one of them stopped early)" % (
+                len(a["sel"]), a["sel"], len(b["sel"]), b["sel"])
         ninit = len(b["sel"]) - len(b["stream"])
         if kind in ("cur", "pcovcur") and 0 <= t - ninit < len(b["stream"]):
             v = b["stream"][t - ninit]
@@ -149,8 +155,35 @@ def run(ctx):
         stats["exhaustive_inputs"] += exhaustive
         k = "%s/axis%d" % (data["kind"], data["axis"])
         stats["kinds"][k] = stats["kinds"].get(k, 0) + 1
+        # a threshold that the cold fit does not reach (relative ones matter for the CUR family,
+        # whose scores are not monotone: first_score_ must survive a warm start)
+        thr = None
+        if ctx.rng.random() < 0.6:
+            thr = ctx.rng.choice([("relative", 0.5), ("relative", 0.25), ("relative", 0.8), ("absolute", 0.0)])
+            if data["kind"] in ("cur", "pcovcur") and ctx.rng.random() < 0.7:
+                # the most sensitive unreached relative threshold: just below the smallest ratio
+                # score_t / first_score the cold fit sees
+                try:
+                    base = final_tables(data["kind"], data["axis"], data["X"], data["y"], data["init"],
+                                        data["extra"], [nr])
+                    picks = [float(v[i]) for v, i in zip(base["stream"], base["sel"])]
+                    if picks and picks[0] > 0:
+                        thr = ("relative", 0.97 * min(p_ / picks[0] for p_ in picks))
+                except Exception:  # noqa
+                    pass
+            try:
+                import warnings as _w
+                with _w.catch_warnings():
+                    _w.simplefilter("ignore")
+                    probe = final_tables(data["kind"], data["axis"], data["X"], data["y"], data["init"],
+                                         data["extra"], [nr], thr)
+                if len(probe["sel"]) != nr:
+                    thr = None          # reached by the cold fit: not an "unreached threshold" history
+            except Exception:  # noqa
+                thr = None
+        stats["thr_relative_unreached"] = stats.get("thr_relative_unreached", 0) + (thr is not None and thr[0] == "relative")
         try:
-            cold = final_tables(data["kind"], data["axis"], data["X"], data["y"], data["init"], data["extra"], [nr])
+            cold = final_tables(data["kind"], data["axis"], data["X"], data["y"], data["init"], data["extra"], [nr], thr)
         except Exception as e:  # noqa
             viol.append(("cold fit raised %s: %s" % (S.err_class(e), str(e)[:120]), dict(case=data, nr=nr)))
             continue
@@ -170,7 +203,11 @@ def run(ctx):
                 continue
             # implementation-level statement of C08: chain == cold
             try:
-                chain = final_tables(data["kind"], data["axis"], data["X"], data["y"], data["init"], data["extra"], ks)
+                import warnings as _w
+                with _w.catch_warnings():
+                    _w.simplefilter("ignore")
+                    chain = final_tables(data["kind"], data["axis"], data["X"], data["y"], data["init"],
+                                         data["extra"], ks, thr)
             except Exception as e:  # noqa
                 viol.append(("chain %s raised %s" % (ks, S.err_class(e)), dict(case=case)))
                 continue
@@ -178,7 +215,8 @@ def run(ctx):
             if msg == "TIE":
                 stats["ties_accepted"] = stats.get("ties_accepted", 0) + 1
             elif msg:
-                viol.append(("history dependence: schedule %s: %s" % (ks, msg), dict(case=case, cold_sel=cold["sel"])))
+                viol.append(("history dependence: schedule %s, threshold %s: %s" % (ks, thr, msg),
+                             dict(case=case, cold_sel=cold["sel"], thr=thr)))
             t = c01.case_coq(case, res)
             if t is not None:
                 texts.append(t)
@@ -193,8 +231,9 @@ def run(ctx):
             stats["init_prefix"] += 1
             try:
                 pre = final_tables("fps", data["axis"], data["X"], data["y"], cold["sel"][:kpre], data["extra"], [nr])
-                msg = tables_equal("fps", dict(pre, select_distance=pre["select_distance"][kpre:]),
-                                   dict(cold, select_distance=cold["select_distance"][kpre:]))
+                cold0 = cold if thr is None else final_tables("fps", data["axis"], data["X"], data["y"], data["init"],
+                                                              data["extra"], [nr])
+                msg = tables_equal("fps", pre, cold0)
                 if msg:
                     viol.append(("FPS initialised with its own prefix %s: %s" % (cold["sel"][:kpre], msg),
                                  dict(case=data, nr=nr, prefix=cold["sel"][:kpre])))
@@ -251,7 +290,9 @@ def replay(ctx, obj):
         return 1
     ks = [s["nts"] for s in case["stages"]]
     cold = final_tables(case["kind"], case["axis"], case["X"], case["y"], case["init"], case["extra"], [ks[-1]])
-    chain = final_tables(case["kind"], case["axis"], case["X"], case["y"], case["init"], case["extra"], ks)
+    thr = tuple(obj["thr"]) if obj.get("thr") else None
+    cold = final_tables(case["kind"], case["axis"], case["X"], case["y"], case["init"], case["extra"], [ks[-1]], thr)
+    chain = final_tables(case["kind"], case["axis"], case["X"], case["y"], case["init"], case["extra"], ks, thr)
     msg = tables_equal(case["kind"], chain, cold)
     if msg == "TIE":
         msg = None
